@@ -319,6 +319,20 @@ func checkValue(c *core.Case, e *entry, v any, why string, smp *valueSample) (fi
 	}
 	c.Count("encoded:"+typ, 1)
 
+	// ---- I: encoding is read-only: the value encodes to the same bytes again
+	// (upload.Slot writes a map: its header order is map order)
+	if encs[0].Err == nil && typ != "upload.Slot" {
+		var again []byte
+		var err error
+		if guard(c, typ, encs[0].Form+" (second time)", func() { again, err = xml.Marshal(v) }) {
+			return
+		}
+		c.Count("law_I_encode_twice", 1)
+		if err == nil && !bytes.Equal(again, encs[0].B) {
+			violate(c, "codec:I:"+typ+":encode:own-encoding-changed", "encoding a %s value changed it: %s wrote\n%s\nthe first time and\n%s\nafter the other encoders had run", typ, encs[0].Form, qb(encs[0].B), qb(again))
+		}
+	}
+
 	// ---- A: all forms denote the same thing
 	var decoded []any
 	var decErr []error
